@@ -10,6 +10,11 @@ Runs the real codec of scales.thriftmux / scales.mux on generated messages:
                  on a fake socket: the bytes the send loop writes to the connection
                  (Tdispatch with the deadline header made by the sink, Tdiscarded produced by the
                  transport's own timeout path, Tping)
+  stream         the same sink chain over the REAL VarzSocketWrapper / ScalesSocket on a fake OS socket that takes
+                 a write in pieces and yields in between (a full kernel buffer): a large call is part-way
+                 written when the keep-alive ping fires (`_SendPingMessage`, what `_PingLoop` does), the call
+                 times out (the transport's Tdiscarded) and more calls are queued behind it; observed: the
+                 reassembled byte STREAM of the connection, which the Lean spec splits by its length prefixes
   unmarshal      MessageSerializer.Unmarshal(tag, type, buf)
   reply          ThriftMuxMessageSerializerSink.AsyncProcessResponse on a reply stream
 
@@ -34,14 +39,19 @@ QUICK = dict(gen=2400)
 THOROUGH = dict(gen=40000)
 
 TRUSTED = ['Python struct / str.encode as the reference for the byte-level comparison (utf8/utf8d ops)',
+           'the fake OS socket under the real ScalesSocket / VarzSocketWrapper (stream op): send() takes a bounded '
+           'piece and waits for writability, yielding, when its buffer is full',
            'the Thrift call bytes are an opaque payload here (C14 covers them)']
-ASSUMPTIONS = ['context keys are str (a non-str key is rejected by the code before anything is written)',
+ASSUMPTIONS = ['stream op: the order in which messages reach the send queue is the order the script issues them '
+               '(the spec itself does not demand any order of the frames)',
+               'context keys are str (a non-str key is rejected by the code before anything is written)',
                'tags handed to the transport come from TagPool (C11); they are observed, not predicted',
                'Deadline._ts/_timeout are observed from the real Deadline object and passed to the model']
 RULE = ('scripts drawn from the seeded generator plus the exhaustive enumerator (every type byte for '
         '_BuildHeader/ReadHeader at boundary tags, every UTF-8 boundary code point); distinct = distinct '
         '(cfg, op list); non-trivial = the script contains multi-byte text, a deadline, a duplicate or private '
-        'key, a near-limit length, a tag >= 2^16, a non-negative reply type or an out-of-domain input')
+        'key, a near-limit length, a tag >= 2^16, a non-negative reply type, an out-of-domain input, or a ping / '
+        'Tdiscarded / call queued while another frame is part-way written')
 
 DEADLINE_KEY = 'com.twitter.finagle.Deadline'
 CLIENT_ID_KEY = 'com.twitter.finagle.thrift.ClientIdContext'
@@ -257,6 +267,35 @@ def gen_op(rng, ood):
     return {'op': 'reply', 'b': b.hex()}
 
 
+def gen_stream(rng):
+    """a call large enough to be written in several pieces, then — while it is part-way written — the keep-alive
+    ping, its timeout, more calls"""
+    chunk = rng.choice([1, 3, 7, 8, 13, 64, 64, 200, 1024])
+    n = rng.choice([2, 3, 3, 4, 5, 7])
+    tagset = rng.sample(TAGS[2:] + list(range(2, 60)), n)
+    items = []
+    if rng.random() < 0.25:
+        items.append({'k': 'ping'})
+    big = gen_call(rng, True, False)
+    big['payload'] = {'hex': bytes(rng.randrange(256) for _ in range(rng.choice([0, 10, 100, 300, 1000, 3000]))).hex()}
+    big['tag'] = tagset[0]
+    items.append(big)
+    for i in range(1, n):
+        r = rng.random()
+        if r < 0.4:
+            it = {'k': 'ping'}
+        elif r < 0.55:
+            it = {'k': 'timeout'}
+        else:
+            it = gen_call(rng, True, False)
+            if 'hex' in it['payload'] and len(it['payload']['hex']) > 2000:
+                it['payload'] = {'hex': it['payload']['hex'][:600]}
+            it['tag'] = tagset[i]
+        it['yields'] = rng.choice([0, 0, 1, 1, 1, 2, 3, 5]) if i > 1 or rng.random() < 0.2 else rng.choice([1, 1, 2, 3])
+        items.append(it)
+    return {'op': 'stream', 'mode': rng.choice(['varz', 'varz', 'bare']), 'chunk': chunk, 'items': items}
+
+
 def gen_script(rng, tier):
     ood = rng.random() < 0.12            # out-of-domain probes: compared with the model, no spec demand
     n = rng.choice([1, 2, 3, 4, 6])
@@ -267,6 +306,8 @@ def gen_script(rng, tier):
         tagset = rng.sample(range(2, 40), k)
         calls = [{'m': gen_call(rng, True, False), 'tag': t} for t in tagset]
         ops = [{'op': 'wirepark', 'calls': calls}] + ops
+    if rng.random() < 0.12:
+        ops.insert(rng.randrange(len(ops) + 1), gen_stream(rng))
     return {'ops': ops}
 
 
@@ -306,6 +347,38 @@ def shrink(script):
         for i in range(len(ops)):
             yield {'ops': ops[:i] + ops[i + 1:]}
     for i, op in enumerate(ops):
+        if op.get('op') == 'stream':
+            items = op['items']
+
+            def with_items(its, **kw):
+                o2 = dict(op, items=its, **kw)
+                return {'ops': ops[:i] + [o2] + ops[i + 1:]}
+            for j in range(len(items)):
+                if len(items) > 1:
+                    yield with_items(items[:j] + items[j + 1:])
+            for j, it in enumerate(items):
+                if it.get('yields', 0) > 1:
+                    yield with_items(items[:j] + [dict(it, yields=1)] + items[j + 1:])
+                if it.get('k') == 'call':
+                    for fld in ('props',):
+                        for q in range(len(it.get(fld) or [])):
+                            yield with_items(items[:j] + [dict(it, **{fld: it[fld][:q] + it[fld][q + 1:]})] + items[j + 1:])
+                    if it.get('payload') != {'hex': ''}:
+                        h = it['payload'].get('hex', '')
+                        for h2 in ('', h[:len(h) // 4 * 2]):
+                            if h2 != h:
+                                yield with_items(items[:j] + [dict(it, payload={'hex': h2})] + items[j + 1:])
+                    for fld in ('deadline_s', 'client_id'):
+                        if it.get(fld):
+                            it2 = dict(it)
+                            it2.pop(fld)
+                            yield with_items(items[:j] + [it2] + items[j + 1:])
+            if op.get('mode', 'varz') != 'varz':
+                yield with_items(items, mode='varz')
+            if op.get('chunk', 64) not in (8, 64):
+                yield with_items(items, chunk=64)
+                yield with_items(items, chunk=8)
+            continue
         m = op.get('m')
         if not m or m.get('k') != 'call':
             continue
@@ -444,6 +517,112 @@ class _FakeSock(object):
         return out
 
 
+class _PieceConn(object):
+    """A fake OS socket (what `ScalesSocket.handle` is: a gevent socket).  `send` takes at most `chunk` bytes —
+    the room left in the kernel buffer — and, when the buffer is full, first waits for writability, which lets
+    other greenlets run; `sendall` is gevent's loop over `send`.  Every byte that reaches the peer is appended to
+    `stream`; the peer answers each whole Tping frame it can split off the stream with an Rping."""
+
+    def __init__(self, chunk):
+        import gevent.event
+        self.chunk = chunk
+        self.stream = bytearray()
+        self.parsed = 0            # the peer has consumed whole frames up to here
+        self.peer_lost = False     # the peer could not make sense of the stream any more
+        self.full = False
+        self.to_client = bytearray()
+        self.evt = gevent.event.Event()
+        self.closed = False
+        self.yields = 0
+
+    # --- client side
+    def connect(self, addr):
+        pass
+
+    def setsockopt(self, *a):
+        pass
+
+    def close(self):
+        self.closed = True
+        self.evt.set()
+
+    def send(self, data):
+        import gevent
+        import socket as _socket
+        if self.closed:
+            raise _socket.error(9, 'Bad file descriptor')
+        if self.full:
+            self.yields += 1
+            gevent.sleep(0)        # wait for writability
+            self.full = False
+            if self.closed:
+                raise _socket.error(9, 'Bad file descriptor')
+        data = bytes(data)
+        n = min(len(data), self.chunk)
+        self.stream += data[:n]
+        self.full = n == self.chunk
+        self._peer()
+        return n
+
+    def sendall(self, data):
+        data = bytes(data)
+        while data:
+            data = data[self.send(data):]
+
+    def recv_into(self, view, sz):
+        import socket as _socket
+        while True:
+            if self.closed:
+                raise _socket.error(9, 'Bad file descriptor')
+            if self.to_client:
+                n = min(sz, len(self.to_client))
+                view[:n] = self.to_client[:n]
+                del self.to_client[:n]
+                return n
+            self.evt.clear()
+            self.evt.wait()
+
+    def recv(self, sz):
+        b = bytearray(sz)
+        n = self.recv_into(memoryview(b), sz)
+        return bytes(b[:n])
+
+    # --- peer side
+    def mid_frame(self):
+        """the peer holds the beginning of a frame whose end has not arrived"""
+        return len(self.stream) > self.parsed
+
+    def _peer(self):
+        while not self.peer_lost and len(self.stream) - self.parsed >= 4:
+            sz = int.from_bytes(self.stream[self.parsed:self.parsed + 4], 'big')
+            if sz < 4 or sz > (1 << 24):
+                self.peer_lost = True
+                return
+            if len(self.stream) - self.parsed - 4 < sz:
+                return
+            frame = bytes(self.stream[self.parsed + 4:self.parsed + 4 + sz])
+            self.parsed += 4 + sz
+            if frame[0] == 65:
+                self.to_client += struct.pack('!ib', 4, -65) + frame[1:4]
+                self.evt.set()
+
+
+def _piece_socket(mode, chunk):
+    """the REAL scales.scales_socket.ScalesSocket — under the REAL VarzSocketWrapper as the transport provider
+    builds it (mode 'varz': writes go through handle.sendall), or bare (mode 'bare': ScalesSocket.write loops
+    over handle.send) — with only the OS socket class and name resolution replaced"""
+    import scales.scales_socket as ss
+    from scales.varz import VarzSocketWrapper
+    conn = _PieceConn(chunk)
+    sock = ss.ScalesSocket('peer', 4242)
+    sock._resolveAddr = lambda: [(2, 1, 6, '', ('peer', 4242))]
+    orig = ss.gsocket
+    ss.gsocket = lambda family, type_: conn
+    if mode == 'varz':
+        sock = VarzSocketWrapper(sock, 'svc')
+    return sock, conn, orig
+
+
 class _Env(object):
     """the real sinks, built lazily once per script"""
     def __init__(self):
@@ -463,17 +642,24 @@ class _Env(object):
             self.thrift = TS(Hello.Iface)
         return self.thrift
 
-    def build_stack(self, hold_ping=False):
+    def build_stack(self, hold_ping=False, pieces=None):
         import rt
         from scales.constants import SinkProperties
         from scales.thriftmux import sink as tmsink
         from scales.message import Deadline
-        self.sock = _FakeSock()
-        self.sock.hold_ping = hold_ping
+        self.conn = None
+        if pieces:
+            self.sock, self.conn, self._orig_gsocket = _piece_socket(pieces[0], pieces[1])
+        else:
+            self.sock = _FakeSock()
+            self.sock.hold_ping = hold_ping
         self.transport = tmsink.SocketTransportSink(self.sock, 'svc')
         ar = self.transport.Open()
         self.open_ar = ar
         rt.drain()
+        if self.conn is not None:
+            import scales.scales_socket as ss
+            ss.gsocket = self._orig_gsocket      # only open() instantiates it
         if not hold_ping:
             assert ar.ready() and ar.exception is None, 'transport did not open: %r' % (ar.exception,)
         gp = {SinkProperties.ServiceInterface: None, SinkProperties.Label: 'svc'}
@@ -503,8 +689,12 @@ class _Env(object):
         self._orig_create = orig_create
         tmsink.SocketTransportSink._CreateDiscardMessage = staticmethod(rec_create)
         self.stack_built = True
-        self.open_frames = list(self.sock.written)
-        del self.sock.written[:]
+        if self.conn is not None:
+            self.open_frames = [bytes(self.conn.stream)]
+            self.base = len(self.conn.stream)
+        else:
+            self.open_frames = list(self.sock.written)
+            del self.sock.written[:]
 
     def teardown(self):
         if self.stack_built:
@@ -579,7 +769,7 @@ def note_entries(tags, lst):
                 tags.add('ood')
 
 
-def issue_call(env, op, m, cap, tags, parked, payload_of):
+def issue_call(env, op, m, cap, tags, parked, payload_of, drain=True, event=None):
     """one call through ClientIdInterceptorSink -> ThriftMuxMessageSerializerSink -> transport; `parked`: on its own
     greenlet (the transport blocks it until the channel is open)"""
     import gevent
@@ -602,6 +792,9 @@ def issue_call(env, op, m, cap, tags, parked, payload_of):
     if 'deadline_s' in m:
         msg.properties['__Deadline'] = m['deadline_s']
         assigns.append([cps('__Deadline'), ['o']])
+    if event is not None:
+        msg.properties['__Deadline_Event'] = event
+        assigns.append([cps('__Deadline_Event'), ['o']])
     env.cid_sink._client_id = m.get('client_id', 'client')
     assigns.append([cps(CLIENT_ID_KEY), ['t', cps(env.cid_sink._client_id)]])
     del env.deadlines[:]
@@ -624,7 +817,8 @@ def issue_call(env, op, m, cap, tags, parked, payload_of):
     else:
         try:
             env.cid_sink.AsyncProcessRequest(stack, msg, None, {})
-            rt.drain()
+            if drain:
+                rt.drain()
         except Exception as ex:
             err = errname(ex)
     return msg, assigns, payload, err
@@ -857,6 +1051,71 @@ def run_script(script):
                     else:
                         obs = ['err', 'other-%d-writes' % len(sock.written)]
                 steps.append([vfmt(['wire', tag, vm])[1:-1], vfmt(obs)])
+            elif kind == 'stream':
+                # its own connection: the real socket classes over an OS socket that takes writes in pieces
+                import gevent
+                senv = _Env()
+                senv.thrift = env.thrift
+                senv.build_stack(pieces=(op.get('mode', 'varz'), max(1, op.get('chunk', 64))))
+                try:
+                    for f in senv.open_frames:
+                        steps.append([vfmt(['wire', 1, 'ping'])[1:-1], vfmt(f)])
+                    conn, tr = senv.conn, senv.transport
+                    tags.add('stream-' + op.get('mode', 'varz'))
+                    items = []           # (tag, message) in the order they were put on the send queue
+                    first = None         # the first call: (tag, event)
+                    for it in op['items']:
+                        for _ in range(it.get('yields', 0)):
+                            gevent.sleep(0)
+                        mid = conn.mid_frame()
+                        behind = mid or not tr._send_queue.empty()
+                        if it['k'] == 'ping':
+                            tr._SendPingMessage()            # what _PingLoop does when its timer goes off
+                            items.append((1, 'ping'))
+                            tags.add('stream-ping')
+                            if mid:
+                                tags.add('ping-while-frame-half-written')
+                        elif it['k'] == 'timeout':
+                            # the first call's deadline passes; only meaningful once the send loop has taken the
+                            # call off the queue (it then sends Tdiscarded itself instead of dropping the call)
+                            if first is None or first[1].Get() or not first[1]._one_shot_callbacks:
+                                tags.add('stream-timeout-skipped')
+                                continue
+                            del senv.discards[:]
+                            rt.fire_deadline(first[1])
+                            gevent.sleep(0)                  # the event's subscribers run on their own greenlet
+                            reason = senv.discards[-1][1] if senv.discards else '?'
+                            items.append((0, ('discard', first[0], cps(reason))))
+                            tags.add('discard')
+                            if mid:
+                                tags.add('discard-while-frame-half-written')
+                        else:
+                            cap = _Capture()
+                            evt = Observable() if first is None else None
+                            msg, assigns, payload, err = issue_call(senv, {'tag': it.get('tag', 2)}, it, cap, tags,
+                                                                    False, payload_of, drain=False, event=evt)
+                            hdrs = call_hdrs(senv)
+                            note_entries(tags, assigns)
+                            note_entries(tags, hdrs)
+                            tag = msg.properties.get('__Tag', it.get('tag', 2))
+                            if tag >= 65536:
+                                tags.add('tag-high')
+                            if first is None:
+                                first = (tag, evt)
+                            if err is not None or cap.got:
+                                tags.add('marshal-error')
+                            items.append((tag, ('call', v_entries(assigns), v_entries(hdrs), payload)))
+                            if behind:
+                                tags.add('call-queued-behind-unfinished-frame')
+                    rt.drain()
+                    if conn.yields:
+                        tags.add('frame-written-in-pieces')
+                    if len(items) >= 3:
+                        tags.add('stream-3+')
+                    steps.append([vfmt(['stream', items])[1:-1], vfmt(bytes(conn.stream[senv.base:]))])
+                finally:
+                    senv.teardown()
+                    env.thrift = senv.thrift
             elif kind == 'unmarshal':
                 b = bytes.fromhex(op['b'])
                 ser = env.serializer()
@@ -896,4 +1155,5 @@ def nontrivial(case):
     t = set(case.get('tags', []))
     return bool(t & {'nonascii', 'astral', 'deadline', 'dup-key', 'private-key', 'near-limit-length', 'tag-high',
                      'type-nonneg', 'ood', 'discard', 'wire-timeout', 'marshal-error', 'utf8d-invalid',
-                     'thrift-payload'})
+                     'thrift-payload', 'ping-while-frame-half-written', 'discard-while-frame-half-written',
+                     'call-queued-behind-unfinished-frame'})
